@@ -39,6 +39,9 @@ fn base_dir() -> &'static std::path::PathBuf {
     })
 }
 
+/// document slot of the file that is only ever on disk
+const LIB_DOC: u64 = 90;
+
 fn path_of(d: u64) -> std::path::PathBuf {
     base_dir().join(format!("doc{d}.st"))
 }
@@ -167,12 +170,34 @@ struct Session {
     published: BTreeMap<String, Json>,
     server_requests: Vec<String>,
     notifications: u64,
+    /// the position encoding the server selected in its initialize result (utf-16 when it names none)
+    encoding: String,
+}
+
+/// The column of a UTF-16 position, re-expressed in the encoding the server selected (an editor sends what was negotiated).
+fn recode_column(text: &str, line: u64, ch16: u64, encoding: &str) -> u64 {
+    if encoding == "utf-16" {
+        return ch16;
+    }
+    let lines = lines_of(text);
+    let Some(l) = lines.get(line as usize) else { return ch16 };
+    let unit = |c: char| if encoding == "utf-8" { c.len_utf8() as u64 } else { 1 };
+    let (mut col16, mut col) = (0u64, 0u64);
+    for c in text[l.start..l.end].chars() {
+        if col16 >= ch16 {
+            return col;
+        }
+        col16 += c.len_utf16() as u64;
+        col += unit(c);
+    }
+    // at or past the line end: keep the distance
+    col + ch16.saturating_sub(col16)
 }
 
 impl Session {
     fn new() -> Self {
         let (svc, socket) = LspService::new(StLanguageServer::verif_new);
-        Session { svc, socket, next_id: 1, published: BTreeMap::new(), server_requests: vec![], notifications: 0 }
+        Session { svc, socket, next_id: 1, published: BTreeMap::new(), server_requests: vec![], notifications: 0, encoding: "utf-16".to_string() }
     }
 
     async fn handle(&mut self, msg: Request) {
@@ -244,6 +269,11 @@ impl Session {
     }
 
     async fn start(pull: bool) -> Session {
+        Session::start_offering(pull, 0).await
+    }
+
+    /// `offer`: 0 = no positionEncodings, 1 = [utf-16], 2 = [utf-8, utf-16], 3 = [utf-32, utf-16]
+    async fn start_offering(pull: bool, offer: u64) -> Session {
         let mut s = Session::new();
         let mut workspace = json!({"semanticTokens": {"refreshSupport": true}});
         if pull {
@@ -261,7 +291,15 @@ impl Session {
                 },
             },
         });
-        let _ = s.request("initialize", params).await;
+        let mut params = params;
+        match offer {
+            1 => params["capabilities"]["general"] = json!({"positionEncodings": ["utf-16"]}),
+            2 => params["capabilities"]["general"] = json!({"positionEncodings": ["utf-8", "utf-16"]}),
+            3 => params["capabilities"]["general"] = json!({"positionEncodings": ["utf-32", "utf-16"]}),
+            _ => {}
+        }
+        let init = s.request("initialize", params).await;
+        s.encoding = init["capabilities"]["positionEncoding"].as_str().unwrap_or("utf-16").to_string();
         s.notify("initialized", json!({})).await;
         s
     }
@@ -899,11 +937,26 @@ impl Check for C14Check {
         let mut bufs: Vec<Option<String>> = vec![None; n_docs as usize];
         let mut versions = vec![0i64; n_docs as usize];
         let mut ops = vec![];
+        let mut extra = rng.fork("extra");
+        let reopen_low = extra.bool();
+        let with_lib = extra.chance(1, 3);
+        let mut lib_hist: Vec<u64> = vec![];
         for _ in 0..n_ops {
+            if with_lib && extra.chance(1, 8) {
+                // a file nobody has open changes on disk (file watcher): often back to an earlier content
+                let variant = if lib_hist.len() >= 2 && extra.bool() { lib_hist[lib_hist.len() - 2] } else { extra.below(5) };
+                lib_hist.push(variant);
+                ops.push(json!({"k": "lib", "variant": variant}));
+            }
             let d = ops_rng.below(n_docs) as usize;
             match bufs[d].clone() {
                 None => {
-                    versions[d] += ops_rng.range(1, 3);
+                    // a reopened document often restarts its version numbering (a new editor buffer)
+                    if versions[d] > 0 && reopen_low {
+                        versions[d] = ops_rng.range(0, versions[d] - 1);
+                    } else {
+                        versions[d] += ops_rng.range(1, 3);
+                    }
                     let text = gen_text(&mut ops_rng, flavour, eol_style);
                     ops.push(json!({"k": "open", "d": d, "v": versions[d], "text": text}));
                     bufs[d] = Some(text);
@@ -949,7 +1002,9 @@ impl Check for C14Check {
                 }
             }
         }
-        json!({"pull": pull, "final_hl": cfg.below(1000), "final_rf": [cfg.below(1000), cfg.below(1000)], "ops": ops})
+        // what the editor offers in general.positionEncodings (the editor then uses whatever the server selects)
+        let offer = *extra.pick(&[0u64, 0, 1, 2, 3]);
+        json!({"pull": pull, "final_hl": cfg.below(1000), "final_rf": [cfg.below(1000), cfg.below(1000)], "offer": offer, "ops": ops})
     }
 
     fn shrink(&self, case: &Json) -> Vec<Json> {
@@ -1087,7 +1142,15 @@ impl Check for C14Check {
         };
         let pull = case["pull"].as_bool().unwrap_or(false);
         let ops = case["ops"].as_array().cloned().unwrap_or_default();
-        let mut primary = guard("initialize", || rt.block_on(Session::start(pull)))?;
+        let offer = case["offer"].as_u64().unwrap_or(0);
+        let mut primary = guard("initialize", || rt.block_on(Session::start_offering(pull, offer)))?;
+        stats.inc(&format!("negotiated.{}", primary.encoding));
+        if primary.encoding != "utf-16" {
+            stats.inc("probe.server_selected_other_encoding");
+        }
+        let mut lib_known = false;
+        let mut lib_hist_seen: Vec<u64> = vec![];
+        let _ = std::fs::remove_file(path_of(LIB_DOC));
         if primary.server_requests.is_empty() {
             return Err(Violation::new("harness/no-server-request-seen", "initialized did not register capabilities through the client socket"));
         }
@@ -1147,6 +1210,7 @@ impl Check for C14Check {
                     let mut after = Some(before.clone());
                     let mut wire = vec![];
                     for ch in &changes {
+                        let after_before_this = after.clone();
                         if let Some(t) = &after {
                             coverage_of_change(t, ch, stats, &mut interesting);
                             after = editor_apply(t, ch).ok();
@@ -1154,7 +1218,10 @@ impl Check for C14Check {
                         let mut w = json!({"text": ch["t"].as_str().unwrap_or("")});
                         if let Some(r) = ch["r"].as_array() {
                             let g = |i: usize| r.get(i).and_then(Json::as_u64).unwrap_or(0);
-                            w["range"] = json!({"start": {"line": g(0), "character": g(1)}, "end": {"line": g(2), "character": g(3)}});
+                            // columns in the negotiated encoding, computed on the buffer this change applies to
+                            let basis = after_before_this.as_deref().unwrap_or("");
+                            let (c0, c1) = (recode_column(basis, g(0), g(1), &primary.encoding), recode_column(basis, g(2), g(3), &primary.encoding));
+                            w["range"] = json!({"start": {"line": g(0), "character": c0}, "end": {"line": g(2), "character": c1}});
                             if let Some(rl) = ch["rl"].as_u64() {
                                 w["rangeLength"] = json!(rl);
                             }
@@ -1248,6 +1315,60 @@ impl Check for C14Check {
                     }
                     // and so must the analysis: compare the answers with the twin right away
                     compare_all(&rt, &mut primary, &mut docs, &order, pull, opi, 0, (0, 999), &mut deferred, stats)?;
+                }
+                "lib" => {
+                    // a file that no editor has open changes on disk; the server learns it from the file watcher only.
+                    // Oracle: its symbols and diagnostics equal those of a fresh server that saw only the final content.
+                    let lib = LIB_DOC;
+                    let (luri, lpath) = (uri_of(lib), path_of(lib));
+                    let variant = op["variant"].as_u64().unwrap_or(0);
+                    let content: Option<&str> = match variant {
+                        0 => Some("FUNCTION LibFn : INT\nLibFn := 1;\nEND_FUNCTION\n"),
+                        1 => Some("FUNCTION LibOther : DINT\nVAR\n  x : DINT;\nEND_VAR\nLibOther := x + 2;\nEND_FUNCTION\n"),
+                        2 => Some(""),
+                        3 => Some("FUNCTION LibFn : INT\nLibFn := ;\nEND_FUNCTION\n"),
+                        _ => None, // deleted
+                    };
+                    let ty = match content {
+                        Some(c) => {
+                            let _ = std::fs::write(&lpath, c);
+                            if lib_known { 2 } else { 1 }
+                        }
+                        None => {
+                            let _ = std::fs::remove_file(&lpath);
+                            3
+                        }
+                    };
+                    lib_known = content.is_some();
+                    guard("didChangeWatchedFiles", || rt.block_on(primary.notify("workspace/didChangeWatchedFiles", json!({"changes": [{"uri": luri, "type": ty}]}))))?;
+                    stats.inc("notifications");
+                    stats.inc("fault.watched_file_event_for_closed_file");
+                    stats.log(&format!("{opi}:lib:{variant}"));
+                    let mut twin = guard("twin initialize", || rt.block_on(Session::start(pull)))?;
+                    if content.is_some() {
+                        guard("twin didChangeWatchedFiles", || rt.block_on(twin.notify("workspace/didChangeWatchedFiles", json!({"changes": [{"uri": luri, "type": 1}]}))))?;
+                    }
+                    let td = json!({"textDocument": {"uri": luri}});
+                    for method in ["textDocument/documentSymbol", "textDocument/diagnostic", "textDocument/foldingRange"] {
+                        let mut a = guard(method, || rt.block_on(primary.request(method, td.clone())))?;
+                        let mut b = guard(method, || rt.block_on(twin.request(method, td.clone())))?;
+                        // the result id is a per-server counter, not an answer about the text
+                        for j in [&mut a, &mut b] {
+                            if let Some(o) = j.as_object_mut() {
+                                o.remove("resultId");
+                            }
+                        }
+                        if fxa(&a.to_string()) != fxa(&b.to_string()) {
+                            return Err(Violation::new(
+                                format!("watched/closed-file-analysis-stale/{}", method.rsplit('/').next().unwrap_or("")),
+                                format!("op {opi}: after the file watcher reported content variant {variant} of a file nobody has open, {method} answers {} where a fresh server that saw only this content answers {}", a.to_string().chars().take(300).collect::<String>(), b.to_string().chars().take(300).collect::<String>()),
+                            ));
+                        }
+                    }
+                    if lib_hist_seen.contains(&variant) {
+                        stats.inc("probe.closed_file_reverted_to_earlier_content");
+                    }
+                    lib_hist_seen.push(variant);
                 }
                 "save" => {
                     let Some(doc) = docs.get(&d).filter(|e| e.open) else { continue };
